@@ -461,18 +461,18 @@ fn parts(ctx: &Ctx) -> Vec<PartSpec> {
                 continue; // without a timeout the mask is irrelevant: one configuration suffices
             }
             if ctx.quick() {
-                v.push(PartSpec::new(&format!("direct-d5-mask{}-timeout{}", mi, to as u8), json!({"depth": 5, "mask": mi, "timeout": to})).budget(50.0));
+                v.push(PartSpec::new(&format!("direct-d5-mask{}-timeout{}", mi, to as u8), json!({"depth": 5, "mask": mi, "timeout": to})).budget(150.0));
             } else {
                 for f in 0..n {
                     v.push(PartSpec::new(&format!("direct-d7-mask{}-timeout{}-first{}", mi, to as u8, f), json!({"depth": 7, "mask": mi, "timeout": to, "first": f})).budget(2400.0));
                 }
             }
         }
-        v.push(PartSpec::new(&format!("prometheus-mask{}", mi), json!({"prom": true, "mask": mi, "depth": if ctx.quick() { 6 } else { 8 }})).budget(if ctx.quick() { 50.0 } else { 2400.0 }));
+        v.push(PartSpec::new(&format!("prometheus-mask{}", mi), json!({"prom": true, "mask": mi, "depth": if ctx.quick() { 6 } else { 8 }})).budget(if ctx.quick() { 150.0 } else { 2400.0 }));
     }
     for (ki, kn) in ["counter", "gauge", "histogram"].iter().enumerate() {
         let pb = if ctx.quick() { 2 } else { 4 };
-        v.push(PartSpec::new(&format!("e1-update-vs-observe-{}-pb{}", kn, pb), json!({"e1": pb, "kind": ki})).cpus("0").budget(if ctx.quick() { 50.0 } else { 1500.0 }));
+        v.push(PartSpec::new(&format!("e1-update-vs-observe-{}-pb{}", kn, pb), json!({"e1": pb, "kind": ki})).cpus("0").budget(if ctx.quick() { 150.0 } else { 1500.0 }));
     }
     v
 }
